@@ -11,12 +11,29 @@ OTHERS_UNTOUCHED = ("forall(lambda q: implies(q is not " + KEY + ", dhas(self.re
 # the order of the other keys is untouched too (whole-view postcondition on the key sequence)
 KEYS_ORDER = "all(implies(k is not " + KEY + ", k in keys(self.registry)) for k in old(keys(self.registry)))"
 
+# Interference: the only point inside a registry operation where other threads' registry operations can be interleaved with
+# an observable effect is the call out to foreign code (the factory).  Its assumed contract therefore lets the *environment*
+# change the registry arbitrarily while it runs (rely condition: any registry operation of another thread sharing the scope).
+fn(R + "createfunc@env", abstract=True, cls="ScopedRegistry", params=["self"], returns="v", modifies=["contents(self.registry)"],
+   notes="the session factory; while it runs another thread may call the registry (any change to the map)")
+
 fn(R + "__call__", cls="ScopedRegistry", props=["C52"],
-   callees={"self.createfunc": "havoc:v"},
+   callees={"self.createfunc": dict(fn=R + "createfunc@env", recv="self", args=[])},
+   s_ensures=[
+       # no lost update: if the scope already had an entry when the factory returned (another thread won the race), that entry
+       # is returned and kept -- "the same Session for repeated calls within one scope ... under any thread interleaving"
+       "implies(after('self.createfunc', dhas(self.registry, " + KEY + ")), result is after('self.createfunc', dget(self.registry, " + KEY + ")))",
+       "implies(after('self.createfunc', dhas(self.registry, " + KEY + ")), dget(self.registry, " + KEY + ") is after('self.createfunc', dget(self.registry, " + KEY + ")))",
+       # every other scope is untouched by this call (relative to what the environment left when the factory returned)
+       "forall(lambda q: implies(q is not " + KEY + ", dhas(self.registry, q) == after('self.createfunc', dhas(self.registry, q))"
+       " and implies(dhas(self.registry, q), dget(self.registry, q) is after('self.createfunc', dget(self.registry, q)))))",
+   ],
    ensures=["implies(old(dhas(self.registry, " + KEY + ")), result is old(dget(self.registry, " + KEY + ")))",
             "dhas(self.registry, " + KEY + ") and dget(self.registry, " + KEY + ") is result",
-            "implies(old(dhas(self.registry, " + KEY + ")), keys(self.registry) == old(keys(self.registry)))",
-            OTHERS_UNTOUCHED, KEYS_ORDER],
+            "implies(old(dhas(self.registry, " + KEY + ")), keys(self.registry) == old(keys(self.registry)))"],
+   # every other scope is untouched *by this call*: relative to what the environment left when the factory returned
+   # concrete counterpart of the interference clauses: the harness' factory lets a competing thread's entry appear
+   c_ensures=["implies(competing is not None, result is competing and dget(self.registry, " + KEY + ") is competing)"],
    modifies=["contents(self.registry)"], harness="registry.call")
 fn(R + "has", cls="ScopedRegistry", props=["C52"], returns="bool",
    ensures=["result == dhas(self.registry, " + KEY + ")"], modifies=[], harness="registry.has")
